@@ -151,3 +151,23 @@ fn kb_get_by_name_icase2() {
         None => assert!(got.is_none()),
     }
 }
+
+#[kani::proof]
+#[kani::unwind(34)]
+#[kani::stub(crate::parser::parse_value, no_text)]
+fn xp_gbi4_idx1() {
+    let a = [sc_w2(), sc_float9(), sc_str1(), sc_str2()];
+    let doc = layout_array(&[a[0].it, a[1].it, a[2].it, a[3].it]);
+    let got = get_by_index(doc.as_slice(), 1);
+    let want = a[1].it.doc();
+    assert!(got.is_some());
+    let g = got.unwrap();
+    assert!(g.len() == 17);
+    assert!(want.n == 17);
+    assert!(g[4] == 0x20 && g[7] == 9 && g[8] == 0x60);
+    assert!(want.b[8] == 0x60 && want.b[9] == a[1].it.pay[1]);
+    assert!(g[9] == a[1].it.pay[1]);
+    assert!(g[10] == a[1].it.pay[2]);
+    assert!(g[16] == 0);
+    assert!(want.eq_slice(g.as_slice()));
+}
